@@ -361,6 +361,7 @@ void World::setup_from_header() {
 	const JV *te = h.get("timerfd_errs"); if (te && te->t == JV::Arr) for (auto &x : te->a) g_kernel.timerfd_create_errs.push_back((int)x.d);
 	g_kernel.fs_fault_at = (int)h.getd("fs_fault_at", -1); g_kernel.fs_fault_kind = h.gets("fs_fault_kind"); g_kernel.fs_fault_arg = (long)h.getd("fs_fault_arg", 0);
 	model.host = this; model.max_matchers = g_variant.max_matchers; model.add_local_only = g_variant.add_local_only; model.default_timeout_s = g_variant.routed_timeout;
+	model.notify_prop = h.gets("notify_prop", "C01");
 	model.allow_either_add = true; model.allow_either_route = true; model.route_may_fail = h.getb("route_may_fail");
 	const JV *cr = h.get("creds");
 	if (cr && cr->t == JV::Obj) {
